@@ -36,6 +36,8 @@ fn one(run: &Run, acc: &mut Acc, sel: &Sel, ctxs: &[(Vec<Seg>, &DocCtx, &str)], 
             vec![sel.clone(), zz]
         } else if class.contains("union, selector last") {
             vec![zz, sel.clone()]
+        } else if class.contains("union, selector twice") {
+            vec![sel.clone(), sel.clone()]
         } else {
             vec![sel.clone()]
         };
@@ -116,8 +118,12 @@ pub fn run(tier: &str) -> i32 {
             let mut acc = Acc::new();
             let sel = Sel::Slice(*a, *b, *c);
             for k in 0..arr_dcs.len() {
-                let ctxs: Vec<(Vec<Seg>, &DocCtx, &str)> =
-                    vec![(vec![], &arr_dcs[k], "root"), (vec![Seg::child(vec![Sel::Name { val: "a".into(), raw: "a".into() }])], &named_dcs[k], "below name")];
+                let ctxs: Vec<(Vec<Seg>, &DocCtx, &str)> = vec![
+                    (vec![], &arr_dcs[k], "root"),
+                    (vec![Seg::child(vec![Sel::Name { val: "a".into(), raw: "a".into() }])], &named_dcs[k], "below name"),
+                    (vec![], &arr_dcs[k], "root, union, selector twice"),
+                    (vec![Seg::child(vec![Sel::Name { val: "a".into(), raw: "a".into() }])], &named_dcs[k], "below name, union, selector twice"),
+                ];
                 one(&run, &mut acc, &sel, &ctxs, Some(Selector::Slice(*a, *b, *c)));
             }
             let ctxs: Vec<(Vec<Seg>, &DocCtx, &str)> = vec![
@@ -217,7 +223,7 @@ pub fn run(tier: &str) -> i32 {
                 Some(_) => format!("{}:{}:{}", f(a), f(b), f(c)),
                 None => format!("{}:{}", f(a), f(b)),
             };
-            let mut qs = vec![format!("$[?@[{}]]", sl), format!("$[?@[{}][0]]", sl), format!("$[?value(@[{}])==@[0]]", sl), format!("$[?@[{}][?@==0]]", sl)];
+            let mut qs = vec![format!("$[?@[{}]]", sl), format!("$[?@[{},{}]]", sl, sl), format!("$[?count(@[{},{}])==0]", sl, sl), format!("$[?@[{}][0]]", sl), format!("$[?value(@[{}])==@[0]]", sl), format!("$[?@[{}][?@==0]]", sl)];
             for k in 0..=3 {
                 qs.push(format!("$[?count(@[{}])=={}]", sl, k));
                 qs.push(format!("$[?count(@[{}][?@=={}])==1]", sl, k));
